@@ -48,7 +48,7 @@ def amp_value(model, name, space, occ, virt):
 def run(ctx):
     rng = ctx.rng
     quick = ctx.tier == "quick"
-    max_order = 2
+    max_order = 3
     gs = adcgen.GroundState(adcgen.Operators())
     variants = ["pp", "ip", "ea"]
     space = detspace.Space(3, 3, rng.randrange(1 << 30), canonical=True)
@@ -219,7 +219,10 @@ def run(ctx):
             modelt = make_model(space, psi, None)
             modelt.special["d"] = lambda m, k, b, up, lo: \
                 dvec[(up or lo)[0]] % P
-        spaces = [(cls[0], o, "same") for o in range(3)]
+        # third order (odd-order normalisation factors matter there): ip/ea
+        # in the quick tier, pp in the thorough tier
+        spaces = [(cls[0], o, "same") for o in range(
+            4 if variant != "pp" or not quick else 3)]
         if len(cls) > 1:
             spaces += [(cls[1], 0, "same"), (cls[1], 1, "same")]
         # mixed left/right variants: the transition moment of the RIGHT
